@@ -99,7 +99,7 @@ def splice_sync(caller, bi, callee):
     caller['blocks'][bi]['term'] = {'t': 'goto', 'to': nb, 'ln': ln, 'x': t.get('x', ''), 'inl': callee['def']}
     cont, unwind = t.get('to'), t.get('unwind')
     for blk in callee['blocks']:
-        nblk = {'s': [_stmt(s, lm) for s in blk['s']]}
+        nblk = {'s': [_stmt(s, lm) for s in blk['s']], 'inl': callee['def'], 'inl_cont': cont}
         if blk.get('cleanup'):
             nblk['cleanup'] = True
         tm = blk.get('term') or {'t': 'unreachable'}
@@ -178,7 +178,7 @@ def splice_async(caller, call_bi, poll_bi, shell, co):
     cont, unwind = pt.get('to'), pt.get('unwind')
     caller['blocks'][poll_bi]['term'] = {'t': 'goto', 'to': nb, 'ln': ln, 'x': pt.get('x', ''), 'inl': shell['def']}
     for blk in co['blocks']:
-        nblk = {'s': []}
+        nblk = {'s': [], 'inl': co['def'], 'inl_cont': cont}
         for s in blk['s']:
             o = dict(s)
             if 'lhs' in o:
